@@ -737,7 +737,7 @@ impl BufferParser for Parser {
                             if self.parsed_numbers[0] >= 0 {
                                 // always be in terminal mode for gotoxy
                                 caret.pos.y = buf.get_first_visible_line()
-                                    + max(0, self.parsed_numbers[0] - 1);
+                                    .saturating_add(max(0, self.parsed_numbers[0] - 1));
                             }
                             if self.parsed_numbers.len() > 1 {
                                 if self.parsed_numbers[1] >= 0 {
@@ -810,7 +810,7 @@ impl BufferParser for Parser {
                             Some(n) => n - 1,
                             _ => 0,
                         };
-                        caret.pos.y = buf.get_first_visible_line() + num;
+                        caret.pos.y = buf.get_first_visible_line().saturating_add(num);
                         buf.terminal_state.limit_caret_pos(buf, caret);
                         return Ok(CallbackAction::Update);
                     }
@@ -822,7 +822,7 @@ impl BufferParser for Parser {
                             Some(n) => *n,
                             _ => 1,
                         };
-                        caret.pos.y = buf.get_first_visible_line() + caret.pos.y + num;
+                        caret.pos.y = (buf.get_first_visible_line() + caret.pos.y).saturating_add(num);
                         buf.terminal_state.limit_caret_pos(buf, caret);
                         return Ok(CallbackAction::Update);
                     }
@@ -854,7 +854,7 @@ impl BufferParser for Parser {
                         if let Some(layer) = &buf.layers.first() {
                             if let Some(line) = layer.lines.get(caret.pos.y as usize) {
                                 caret.pos.x =
-                                    min(line.get_line_length(), caret.pos.x + num);
+                                    min(line.get_line_length(), caret.pos.x.saturating_add(num));
                                 buf.terminal_state.limit_caret_pos(buf, caret);
                             }
                         } else {
@@ -881,7 +881,7 @@ impl BufferParser for Parser {
                             Some(n) => *n,
                             _ => 1,
                         };
-                        caret.pos.y = buf.get_first_visible_line() + caret.pos.y + num;
+                        caret.pos.y = (buf.get_first_visible_line() + caret.pos.y).saturating_add(num);
                         caret.pos.x = 0;
                         buf.terminal_state.limit_caret_pos(buf, caret);
                         return Ok(CallbackAction::Update);
